@@ -27,6 +27,11 @@ CHECKS = {
    text="Record/enumerate: a synced store runs a concurrent workload under the scheduler while the shadow disk records every storage operation (write, fsync, directory sync, create, remove, rename) and an ack marker per returned commit; then crash images are materialised for sampled operation indexes k and persistence modes (process kill; power loss with none / prefix / random subset of un-synced writes, sector-torn writes, un-dirsynced files missing), the real store is opened on each image, a fraction of recoveries is crashed again. Oracle per image: open succeeds, frontier >= highest ack before k, every acknowledged tx byte-identical, chain and BlRoot against the reference Merkle tree, dual proofs from acknowledged states verify, index equals the model of the recovered log, a fresh commit succeeds and chains. The enumeration over k is sampled (10 images per trace in quick, 40 in thorough), not exhaustive.",
    note="Trusts the shadow-disk model (see evidence assumptions). Values of transactions that were never acknowledged may be unreadable after recovery (counted by a probe), never different. Compressed value logs are excluded.",
    technique="deterministic simulation: recorded storage-op trace, crash-point and lost-write enumeration, recovery oracle"),
+ "C08": dict(
+   level="exploration", design="DESIGN.md §7 C08",
+   text="Seeded sequences of append (payloads incl. empty and repeated) / ResetSize / Sync / close-reopen / crash-reopen (crash images incl. crashes in the middle of the previous operation) on the real ahtree under an option swarm (sync threshold, 1-slot caches, tiny files); after the steps the whole public surface for sizes up to 40 is compared with a reference Merkle construction written from the definition: Root, RootAt(k), DataAt, InclusionProof and ConsistencyProof for index pairs (all pairs on full verification), verified with the real verifiers and with an independent reference verifier; altered proofs (dropped/extra/flipped/swapped/duplicated terms) and altered claims (shifted i, j, swapped roots, wrong leaf) must be rejected unless the reference verifier accepts the altered claim. htree (per-transaction tree): widths 1..33, all leaves, same reference, altered leaf index/width/terms.",
+   note="Reference tree and reference inclusion verifier in checks/merkle_ref_test.go. Consistency-proof soundness is checked for altered terms and altered roots only (no independent verifier of immudb's consistency-proof format).",
+   technique="deterministic simulation: seeded op/crash sequences vs reference Merkle tree + tampered-proof injection"),
 }
 
 NOT_APPLICABLE = [
